@@ -1,5 +1,84 @@
-"""C04 part (ii): sweep over all 65536 two-byte frame headers (placeholder until built)."""
+"""C04 part (ii): the sweep over all 65536 two-byte frame headers (spec/GenHdr.tla prints the verdict table)."""
+import struct
+
+from .. import pipeline
+
+
+def remainder(b1, b2):
+    """The minimal legal remainder of a frame starting with bytes b1 b2: extended length, masking key, payload."""
+    op = b1 & 15
+    l7 = b2 & 127
+    n = l7 if l7 < 126 else (126 if l7 == 126 else 65536)
+    ext = b'' if l7 < 126 else (struct.pack('!H', 126) if l7 == 126 else struct.pack('!Q', 65536))
+    payload = (b'\x03\xe8' + b'a' * (n - 2)) if (op == 8 and n >= 2) else b'a' * n
+    key = b''
+    if b2 & 128:
+        key = b'\x00\x00\x00\x00'       # a zero key leaves the payload readable
+    return ext + key + payload
+
+
+def _run(job):
+    from .. import world
+    idx, (ctx, b1, b2) = job
+    try:
+        stream = [{"t": "http", "v": "ok"}]
+        if ctx['deflate']:
+            stream[0]['ext'] = 'permessage-deflate'
+        if ctx['open'] == 'text':
+            stream.append({"t": "f", "op": 1, "fin": 0, "pl": [97]})
+        elif ctx['open'] == 'bin':
+            stream.append({"t": "f", "op": 2, "fin": 0, "pl": [1]})
+        stream.append({"t": "raw", "b": list(bytes([b1, b2]) + remainder(b1, b2))})
+        stream.append({"t": "f", "op": 9, "fin": 1, "pl": [7, 7]})
+        sc = {"conns": [{"stream": stream, "steps": [{"kind": "data", "items": len(stream)}]}], "ws_kwargs": {"compress": bool(ctx['deflate'])},
+              "connect_kwargs": {"ping_rate": 0, "close_timeout": None}, "keep_events": False}
+        log, _ = world.run_scenario(sc)
+        evs = [x for x in log if x['k'] == 'ev']
+        perr = sum(1 for x in evs if x['name'] == 'protocol_error')
+        ping = any(x['name'] == 'ping' and x['pl']['s'] == [7, 7] for x in evs)
+        term = evs[-1] if evs else {}
+        bad_end = not (term.get('name') == 'disconnected')
+        return idx, (perr, ping, bad_end, bool(term.get('graceful')), any(x['k'] in ('escape', 'hang') for x in log)), None
+    except BaseException as e:
+        import traceback
+        return idx, None, 'HARNESS: %s\n%s' % (e, traceback.format_exc())
 
 
 def add(run, tier):
-    return
+    res, _ = pipeline.generate('GenHdr', "SPECIFICATION Spec\nINVARIANT EmitTable\nCHECK_DEADLOCK FALSE\n", timeout=900)
+    run.add_tlc('GenHdr (verdict for every 2-byte header x context)', res)
+    rows = [l for l in res.lines if isinstance(l, dict) and 'hdr' in l]
+    if len(rows) != 256 * 2 * 6:
+        raise pipeline.MachineryFailure('GenHdr printed %d rows instead of 3072' % len(rows))
+    jobs, want = [], []
+    for r in rows:
+        ctx = {"deflate": bool(r['deflate']), "open": r['open']}
+        full = tier == 'thorough' or (not ctx['deflate'] and ctx['open'] == 'none')
+        b1, m = r['hdr']
+        for l7 in range(128):
+            if not full and l7 not in (0, 1, 2, 125, 126, 127):
+                continue
+            jobs.append((ctx, b1, m * 128 + l7))
+            want.append(r['v'][l7])
+    out = pipeline.execute(jobs, fn=_run)
+    n_viol = n_ok = n_either = 0
+    bad = []
+    for (ctx, b1, b2), w, (perr, ping, bad_end, graceful, escaped) in zip(jobs, want, out):
+        if w == 1:
+            n_viol += 1
+            good = perr == 1 and not ping and not bad_end and not graceful and not escaped
+        elif w == 0:
+            n_ok += 1
+            good = perr == 0 and ping and not escaped
+        else:
+            n_either += 1
+            good = not escaped and ((perr == 0 and ping) or (perr == 1 and not ping))
+        if not good:
+            bad.append({"ctx": ctx, "header": [b1, b2], "spec": {0: "accept", 1: "violation", 2: "either"}[w],
+                        "code": {"protocol_errors": perr, "following_ping_delivered": ping, "graceful": graceful, "escaped": escaped}})
+    run.evaluations += len(jobs)
+    run.cov['header_sweep'] = {"headers_x_contexts": len(jobs), "must_reject": n_viol, "must_accept": n_ok, "either": n_either, "mismatches": len(bad)}
+    for b in bad[:5]:
+        run.violation('header_verdict_differs_from_spec_table', {"kind": "hdr", "row": b})
+    if len(bad) > 5:
+        run.violations.extend([('header_verdict_differs_from_spec_table', run.violations[-1][1])] * (len(bad) - 5))
